@@ -21,7 +21,7 @@ from harness import common
 GEN_MODULES = ['table']
 MODEL_TARGETS = ['model/M_Table.vo']
 PROOF_TARGETS = ['proofs/P_Table.vo', 'proofs/P_TableRefine.vo', 'proofs/P_TableThm.vo', 'proofs/P_TableSim5.vo',
-                 'proofs/P_TableFull.vo', 'proofs/P_TableClosed.vo', 'proofs/P_TableRows.vo']
+                 'proofs/P_TableFull.vo', 'proofs/P_TableClosed.vo', 'proofs/P_TableRows.vo', 'proofs/P_TableFindings.vo']
 LEVEL = 'proof'
 RULE = ('operation sequences over all public operations of DataFieldRecordArray (constructor from dict with '
         'keep/conversions/copy, copy, get_selection, set_selection, append, append_field, __setitem__, '
@@ -72,15 +72,19 @@ def tok_of(valdom, v):
     return -999999
 
 
+# field names with substring relations among them (a str keep_fields must not be read as a container
+# of characters / substrings) and of different lengths
+NAMES = ['a', 'ab', 'abc', 'b', 'bc', 'c', 'ra', 'dec']
+NAME_NO = {nm: i for i, nm in enumerate(NAMES)}
+
+
 def fname(n):
-    return f'f{n}'
+    return NAMES[n] if 0 <= n < len(NAMES) else f'zz{n}'
 
 
 def fnum(s):
-    return int(s[1:])
+    return NAME_NO[s] if s in NAME_NO else int(s[2:])
 
-
-# ------------------------------------------------------------------ implementation side
 
 def mk_keep(op):
     """keep_fields argument in the container kind the op asks for (list / tuple / ndarray of str / str)"""
@@ -101,6 +105,7 @@ class Impl:
     def __init__(self, DFRA, valdom=None):
         self.DFRA = DFRA
         self.valdom = valdom
+        self.aliased = False
         self.objs = []
         self.refs = []          # per object: {'names': [..], 'rows': [dict]}
 
@@ -256,6 +261,16 @@ class Impl:
                         r['names'].append(op['name'])
                     for row, v in zip(r['rows'], op['buf'][1]):
                         row[op['name']] = v
+            elif k == 'setitem_from':
+                # t[name] = src[srcname]: the live column array of one table is stored into another (by design
+                # this aliases them; the no-sharing predicates are switched off for such a sequence and the
+                # model, which has the same operation, predicts exactly which arrays share memory)
+                self.aliased = True
+                col = self.objs[op['src']][fname(op['srcname'])]
+                self.objs[op['t']][fname(op['name'])] = col
+                self._impl_done = True
+                for i_ in (op['t'], op['src']):
+                    self.refs[i_]['undefined'] = True
             elif k == 'remove':
                 self.objs[op['t']].remove_field(fname(op['name']))
                 self._impl_done = True
@@ -424,6 +439,8 @@ def g_op(op):
         return f'OSetDtype {op["t"]}%nat {g_z(op["name"])} {op["dt"]}'
     if k == 'indices':
         return f'OIndices {op["t"]}%nat'
+    if k == 'setitem_from':
+        return f'OSetItemFrom {op["t"]}%nat {g_z(op["name"])} {op["src"]}%nat {g_z(op["srcname"])}'
     raise AssertionError(k)
 
 
@@ -504,7 +521,7 @@ def history_probes(ctx, impl, site, case, op):
         finally:
             for _, _, a in entries:
                 np.subtract(a, 1, out=a, casting='unsafe')
-    if bad:
+    if bad and not impl.aliased:
         who = [(entries[i][0], entries[i][1]) for i in bad[:4]]
         ctx.violation(site, 'write-through-aliasing',
                       f'writing once into every live array moved elements of {who} twice: the arrays overlap '
@@ -664,7 +681,7 @@ def predicates(ctx, impl, ops, stepno, outcome, extra, before):
                           predicate='public accessors work on every reachable table')
     history_probes(ctx, impl, site, case, op)
     pat = share_pattern(arrays)
-    if pat:
+    if pat and not impl.aliased:
         ctx.violation(site, 'shared-memory', f'column arrays share memory: positions {pat[:4]}',
                       case=case, impl=pat, predicate='no two columns / objects share memory')
     if outcome != 'Done' and before is not None and before != obs:
@@ -1145,10 +1162,21 @@ def corpus():
         # a table beyond 4096 rows (size-gated code paths)
         [{'op': 'ctor', 'cols': [(0, (2, [(i * 7919) % 4501 - 2000 for i in range(4500)])), (1, (3, [i % 37 for i in range(4500)]))],
           'keep': None, 'conv': [], 'exc': [], 'copy': True, 'srckind': 'ndarray'},
-         {'op': 'from', 'src': 0, 'keep': None, 'conv': [], 'exc': []},
          {'op': 'select', 'src': 0, 'sel': ('idx', list(range(100, 4400)))},
-         {'op': 'setsel', 't': 1, 'src': 2, 'sel': ('idx', list(range(150, 4450)))},
-         {'op': 'sort', 't': 1, 'name': 0}, {'op': 'append', 't': 2, 'src': 0}, {'op': 'indices', 't': 2}],
+         {'op': 'setsel', 't': 0, 'src': 1, 'sel': ('idx', list(range(150, 4450)))},
+         {'op': 'sort', 't': 0, 'name': 0}, {'op': 'append', 't': 1, 'src': 0}],
+        # BY DESIGN: t1[n] = t0[m] aliases two tables (and two columns of one table); the model has the same
+        # operation and must predict the sharing pattern and every write-through exactly
+        [{'op': 'ctor', 'cols': [(0, (2, [1, 2])), (1, (3, [3, 4]))], 'keep': None, 'conv': [], 'exc': [], 'copy': True},
+         {'op': 'ctor', 'cols': [(0, (2, [5, 6]))], 'keep': None, 'conv': [], 'exc': [], 'copy': True},
+         {'op': 'setitem_from', 't': 1, 'name': 0, 'src': 0, 'srcname': 0},
+         {'op': 'ctor', 'cols': [(0, (2, [8, 9])), (1, (3, [7, 7]))], 'keep': None, 'conv': [], 'exc': [], 'copy': True},
+         {'op': 'setsel', 't': 0, 'src': 2, 'sel': ('idx', [0, 1])},
+         {'op': 'setitem_from', 't': 0, 'name': 4, 'src': 0, 'srcname': 1},
+         {'op': 'setsel', 't': 0, 'src': 0, 'sel': ('idx', [1, 0])},
+         {'op': 'sort', 't': 0, 'name': 0}, {'op': 'setsel', 't': 0, 'src': 2, 'sel': ('mask', [True, False])},
+         {'op': 'from', 'src': 1, 'keep': None, 'conv': [], 'exc': []}, {'op': 'setitem_from', 't': 1, 'name': 9, 'src': 0, 'srcname': 0},
+         {'op': 'setitem_from', 't': 1, 'name': 1, 'src': 0, 'srcname': 7}],
         # OPEN FINDINGS, hit on every run: tables without fields forget their length in the constructor;
         # selections of such tables are unchecked; a colliding rename drops a column silently
         [{'op': 'ctor', 'cols': [(0, (2, [1, 2, 3, 4, 5]))], 'keep': None, 'conv': [], 'exc': [], 'copy': True},
